@@ -11,8 +11,10 @@ def cells(tier, seed):
     cs = []
     from harness import c08, posixtz
     specs = [s for s in c08.specs(tier) if s.get("dst") and not (posixtz.rule_time(s["end"]) < posixtz.dstoff(s) - s["stdoff"] or posixtz.rule_time(s["start"]) >= 86400)]
-    for spec in (specs[:4] if q else specs):
+    for spec in specs:
         for kind in ("tzstr", "tzrange", "tzlocal", "tzical:rrule"):
+            if kind == "tzstr" and spec.get("no_tzstr"):
+                continue
             if kind.startswith("tzical") and not (spec["start"][0] == "M" and spec["end"][0] == "M"):
                 continue
             y = 1972 if kind.startswith("tzical") else 2024
